@@ -1,5 +1,6 @@
 import GrVerif.Proofs.Borrow
 import GrVerif.Model.Pass
+import GrVerif.Proofs.SparseSpec
 /-!
 # C08 — shaping is a pure function of its arguments (history-independent)   (partial)
 
@@ -31,6 +32,18 @@ theorem glyph_cache_history_independent {G : Type} (load : Nat → Option G) (n 
 theorem glyph_is_what_the_tables_say {G : Type} (load : Nat → Option G) (n : Nat) (c : GCache G) (gid : Nat) (h : Consistent load n c)
     (hwf : ∀ g, g < n → (load g).isSome) (hfull : c.loader = true ∨ ∀ g, g < n → (c.cache.getD g none).isSome) (hg : gid < n) :
     (glyph load c gid).1 = load gid := glyph_value load n c gid h hwf hfull hg
+
+/-- **a glyph's attributes are what `Glat` says** – the `sparse` a glyph's attributes are kept in (`src/inc/Sparse.h`: chunks of 48 keys,
+presence bits, one allocation for chunks and values; `Model/GlyphLoad.lean`) answers, for every attribute number, the value the glyph's
+run-length entries give it, 0 for an attribute that is absent or given the value 0: for every sequence of (key, value) pairs the
+constructor accepts and whose allocation 16-bit offsets can address (an accepted glyph has at most 0x3000 attributes).  So
+`Segment::glyphAttr`, the `PUSH_GLYPH_ATTR` opcodes, the bidi and mirror attributes and the collision attributes all read the font's
+own numbers, independently of which glyphs were looked at before. -/
+theorem glyph_attribute_is_what_glat_says (pairs : List (Nat × Nat)) (s : GrVerif.Loader.Sparse)
+    (hb : GrVerif.Loader.sparseBuild pairs = .ok (some s))
+    (hsmall : GrVerif.Loader.chunkCells * s.nchunks + s.values.length < 65536) (k : Nat) :
+    s.get k = .ok (GrVerif.Loader.lookupPairs pairs k) :=
+  GrVerif.Loader.sparse_get_spec pairs s hb hsmall k
 
 /-- **hinted-advance cache.** On a hinted font, whatever requests were made before (`hist`, by earlier segments, slot
 queries or justification), `Font::advance(gid)` answers with the application's value for that glyph – the same as the very
